@@ -102,6 +102,22 @@ Theorem C10_heat_capacity_positive_of_increasing_enthalpy : forall (H : R -> R) 
 Proof. exact heat_capacity_pos_of_increasing. Qed.
 Print Assumptions C10_heat_capacity_positive_iff_enthalpy_rises.
 
+(* the two together: the FROZEN heat capacity -- the regenerated heat_capacity applied to the regenerated enthalpy kernel at fixed
+   composition, reference energies and lowerings -- is strictly positive for every T > 0 and every relative step 0 < d < 1 *)
+Theorem C10_frozen_heat_capacity_positive : forall (U : Units R) (l : list entry) (T d : R),
+  constants_ok U -> 0 < T -> 0 < d < 1 ->
+  Forall (fun e => 0 < molar_mass (e_sp e) /\ 0 <= e_n e /\ thermo_ok (e_sp e) (e_dE e)) l ->
+  Exists (fun e => 0 < e_n e) l ->
+  0 < heat_capacity RNum (fun t => enthalpy RNum U t (map e_sp l) (map e_n l) (map e_E0 l) (map e_dE l)) T d.
+Proof.
+  intros U l T d Hc HT [Hd0 Hd1] Hl He.
+  apply heat_capacity_pos_iff; [assumption | assumption |].
+  apply C10_frozen_enthalpy_increasing; try assumption.
+  - apply Rmult_lt_0_compat; lra.
+  - apply Rmult_lt_compat_l; lra.
+Qed.
+Print Assumptions C10_frozen_heat_capacity_positive.
+
 (* non-vacuity: a two-level atom meets thermo_ok; the closed-form hypotheses have a solution (S = 1: c0 = 1, ce = 1, n = 3) *)
 Example C10_hypotheses_satisfiable :
   thermo_ok (mkSpecies R KMono 1 [] 1 0%Z 10 0 [(0, 0); (1, 5)] 0 0 0 0 false [] [] 0 0 None None []) 1 /\
